@@ -23,6 +23,7 @@ REPLAYS = os.path.join(VERIF, "replays")
 EVIDENCE = os.path.join(VERIF, "evidence")
 KNOWN = os.path.join(VERIF, "known_findings.json")
 NCPU = min(16, os.cpu_count() or 4)
+MAX_CRASH_VIOLATIONS = 4
 
 ENV_BASE = dict(os.environ)
 ENV_BASE["CARGO_NET_OFFLINE"] = "true"
@@ -186,6 +187,8 @@ class Agg:
         self.inconclusive = []  # reasons
         self.crashes = 0
         self.cases_run = 0
+        self.crash_violations = 0   # confirmed crash / hang / OOM violations
+        self.cases_skipped_after_crashes = 0
 
     def add_stats(self, st):
         if not st:
@@ -211,6 +214,10 @@ def run_range(agg, binp, prop, seed, start, count, tier, tag, extra=None, timeou
     end = start + count
     part = 0
     while cur < end:
+        if agg.crash_violations >= MAX_CRASH_VIOLATIONS:
+            # the verdict is already "violated"; every further hang costs a full watchdog budget
+            agg.cases_skipped_after_crashes += end - cur
+            return
         logp = os.path.join(RUN, f"{prop}-{tag}-{cur}-{part}.log")
         r = run_worker(binp, prop, seed, cur, end - cur, tier, logp, extra, timeout, env, budget, mem)
         pl = parse_log(logp)
@@ -261,6 +268,7 @@ def run_range(agg, binp, prop, seed, start, count, tier, tag, extra=None, timeou
                     "variant": variant,
                 })
                 agg.viol_sig_counts[f"{prop}/{kind2}@{where2}"] = agg.viol_sig_counts.get(f"{prop}/{kind2}@{where2}", 0) + 1
+                agg.crash_violations += 1
         agg.cases_run += open_case + 1 - cur
         cur = open_case + 1
         part += 1
@@ -375,6 +383,7 @@ def conclude(prop, tier, seed, agg, t0, rule, assumptions, required=None, level=
         "violation_signatures": {k: v for k, v in sorted(agg.viol_sig_counts.items())},
         "known_findings_hit": [s for s, _ in known_hit],
         "worker_crashes_attributed": agg.crashes,
+        "cases_skipped_after_confirmed_crashes": agg.cases_skipped_after_crashes,
         "inconclusive_reasons": agg.inconclusive[:20],
         "harness_errors": agg.herr[:10],
     }
